@@ -715,15 +715,17 @@ def c11_circumstance(clause, hist, cfgname, item):
         d = div[0]
         if d['act'] == 'Reopen' and 'nonbootable_section_entry' in fs:
             return 'nonbootable_section_entry'
-        if 'after_rm_eltorito_with_unlinked_boot_file' in fs:
-            return 'after_rm_eltorito_with_unlinked_boot_file'
         if d['act'] == 'Reopen' and 'UDF Anchors' in d['got'] and 'udf_name_removed_after_reopen' in fs:
             return 'udf_name_removed_after_reopen'
+        if 'after_rm_eltorito_with_unlinked_boot_file' in fs:
+            return 'after_rm_eltorito_with_unlinked_boot_file'
         return '%s/%s:%s->%s' % (d['act'], d['why'] or 'accepted', d['want'], ':'.join(d['got'].split(':')[:2]))
-    if 'after_rm_eltorito_with_unlinked_boot_file' in fs:
-        return 'after_rm_eltorito_with_unlinked_boot_file'      # the object is corrupt from there on
     if clause == 'ReadBackPossible' and 'UDF Anchors' in item.get('open_error', '') and 'udf_name_removed_after_reopen' in fs:
         return 'udf_name_removed_after_reopen'                   # not El Torito's: UDF space accounting
+    if clause in ('CatalogReachableAsFile.read.live.udf', 'CatalogReachableAsFile.read.open.udf', 'BootInfoTable.read.live.udf'):
+        return 'udf_name'                                        # fail on every UDF image, whatever the history
+    if 'after_rm_eltorito_with_unlinked_boot_file' in fs:
+        return 'after_rm_eltorito_with_unlinked_boot_file'      # the object is corrupt from there on
     if clause == 'Mastered':
         return ':'.join(item['expect']['master'].split(':')[:2])
     if clause == 'ReadBackPossible' and 'nonbootable_section_entry' in fs:
@@ -745,7 +747,31 @@ def c11_circumstance(clause, hist, cfgname, item):
     return 'none'
 
 
+def replay_file(ctx, module, want_hybrid, circumstance):
+    """--replay PATH: re-run one saved behaviour (the model recomputes what it expects)"""
+    with open(ctx.replay) as f:
+        doc = json.load(f)
+    rep = doc.get('replay', doc)
+    hist = oracle([[s['act'] for s in rep['hist']['h']]])[0]
+    r = run_history(hist, rep['cfg'], want_hybrid)
+    ctx.coverage.update({'states': len(hist['h']) + 1, 'transitions': len(hist['h']), 'traces_validated_against_impl': 1})
+    ctx.sample({'history': hist_brief(hist), 'cfg': rep['cfg']})
+    if r['kind'] != 'item':
+        print('behaviour ends in a refusal that mutates (C14); nothing to judge')
+        return
+    it = r['item']
+    it['id'] = 'replay'
+    fails, _, _ = judge_items(module, [it])
+    print('replay %s in %s: failing clauses %s' % (hist_brief(hist), rep['cfg'], fails.get('replay', [])))
+    for cl in fails.get('replay', []):
+        ctx.violation({'clause': cl, 'circumstance': circumstance(cl, hist, rep['cfg'], it)},
+                      {'history': hist_brief(hist), 'cfg': rep['cfg'], 'failing': fails['replay']},
+                      {'hist': hist, 'cfg': rep['cfg'], 'expect': it['expect']})
+
+
 def run(ctx):
+    if getattr(ctx, 'replay', None):
+        return replay_file(ctx, 'Judge_C11', False, c11_circumstance)
     quick = ctx.tier == 'quick'
     rnd = random.Random(ctx.seed)
     plan = []     # (profile, maxlen, maxrefuse, maxgen, simulate, depth, cfgs, cap)
@@ -756,10 +782,11 @@ def run(ctx):
                  ('c11s', 9, 2, 2, 40, 10, base_cfgs + ['jolrr'], 350),
                  ('c11n', 36, 1, 1, 3, 37, ['plain', 'all'], 40)]
     else:
-        plan += [('c11q', 5, 1, 1, None, None, base_cfgs + ['jolrr'], 12000),
-                 ('c11m', 3, 1, 1, None, None, ['plain', 'jol', 'all'], 4000),
-                 ('c11t', 12, 2, 2, 400, 13, base_cfgs + ['jolrr'], 6000),
-                 ('c11n', 36, 1, 1, 30, 37, base_cfgs, 600)]
+        plan += [('c11q', 5, 1, 1, None, None, base_cfgs + ['jolrr'], 5000),
+                 ('c11m', 3, 1, 1, None, None, ['plain', 'all'], 1200),
+                 ('c11f', 3, 0, 1, None, None, ['plain', 'all'], 200),
+                 ('c11t', 12, 2, 2, 300, 13, base_cfgs + ['jolrr'], 2500),
+                 ('c11n', 36, 1, 1, 20, 37, ['plain', 'udf', 'all'], 200)]
     stats_list = []
     tasks = []
     hists = []
